@@ -26,6 +26,7 @@ def plan_C01(ctx):
     run_family(ctx, "match", n_of(ctx, 40, 400), perfile=20, seed_off=5)          # lookups of absent terms after DocsMatchingTerms (shared empty objects)
     run_family(ctx, "reuse", n_of(ctx, 60, 800), perfile=20, seed_off=6)          # absent terms looked up with recycled lists
     run_family(ctx, "iter_walk", n_of(ctx, 60, 800), perfile=20, seed_off=7)      # every flag combination with Advance, exclusions and ReplaceActual on built segments
+    run_family(ctx, "bitmap_edges", n_of(ctx, 3, 12), perfile=1)                   # a field twice per document (occurrences != documents), exact bitmap sizes
     canary(ctx)
 
 
@@ -338,6 +339,7 @@ def plan_tmp(ctx):
 def plan_C02(ctx):
     if not ctx.quick:
         e1_dv_merge(ctx)                      # (quick tier: checked by C07)
+        run_family(ctx, "midsize", 5, perfile=1, seed_off=1)
     e2_dv_merge(ctx, n_of(ctx, 40, 600))
     e2_merge_algo(ctx)
     e1_enumerator(ctx)
@@ -374,6 +376,7 @@ def plan_C03(ctx):
     run_family(ctx, "card_boundary", n_of(ctx, 6, 24), perfile=1, seed_off=4)      # live cardinality on a chunk-size step, deleted 1-hit inputs
     run_family(ctx, "dv_walk", n_of(ctx, 8, 100), perfile=2, seed_off=5)           # a >1024-document input with doc-value chunk gaps as the SECOND input
     run_family(ctx, "many_fields", n_of(ctx, 6, 60), perfile=2, seed_off=6)        # locations naming other fields whose ids sit on both sides of 128
+    run_family(ctx, "big_stored", n_of(ctx, 2, 9), perfile=1, seed_off=3)          # megabytes pending inside one re-encoded stored block
     canary(ctx)
 
 
@@ -395,6 +398,7 @@ def plan_C04(ctx):
     run_family(ctx, "fault_load", n_of(ctx, 10, 200), perfile=10, seed_off=2)       # a Load that met a transient read failure and still succeeded
     run_family(ctx, "many_fields", n_of(ctx, 6, 60), perfile=2, seed_off=7)         # merged files whose location prefixes depend on field ids 127/128
     run_family(ctx, "big_dict_merge", n_of(ctx, 3, 30), perfile=1, seed_off=1)
+    run_family(ctx, "midsize", n_of(ctx, 1, 6), perfile=1)                          # 200-900 documents, 20-60 fields, long terms, large frequencies, 5-60 KB values, 3-6 inputs
     canary(ctx)
 
 
@@ -427,6 +431,7 @@ def plan_C07(ctx):
     run_family(ctx, "huge", n_of(ctx, 2, 8), perfile=1, seed_off=3)                 # doc values of documents beyond 16 384 / 65 536
     run_family(ctx, "dv_merge_order", n_of(ctx, 8, 80), perfile=2, seed_off=1)
     run_family(ctx, "fault_dv_partial", n_of(ctx, 256, 1024), perfile=64, seed_off=1)   # readers of several fields out of step after a failed load
+    run_family(ctx, "fault_then_merge", n_of(ctx, 60, 600), perfile=20, seed_off=4, env_extra={"VERIF_INLINE": "1"})   # doc values of the merge that follows an abandoned one (same goroutine: same pooled objects)
     require_cov(ctx, "tag:dv_chunk_gap")
     canary(ctx)
 
@@ -439,6 +444,7 @@ def plan_C08(ctx):
     run_family(ctx, "dict_ranges", n_of(ctx, 250, 5000), perfile=n_of(ctx, 20, 40))
     run_family(ctx, "dict_interleave", n_of(ctx, 120, 2500), perfile=n_of(ctx, 20, 40))
     run_family(ctx, "merge_obs", n_of(ctx, 100, 1500), perfile=20, seed_off=6)
+    run_family(ctx, "bitmap_edges", n_of(ctx, 3, 12), perfile=1, seed_off=1)       # serialised bitmaps of exactly 4094..4098 bytes; array/bitmap container switch
     canary(ctx)
     run_family(ctx, "build_big", n_of(ctx, 7, 84), perfile=1, seed_off=4)         # dense terms last in their dictionary: length prefixes of run-optimised bitmaps
 
@@ -476,6 +482,7 @@ def plan_C09(ctx):
     e2_stored_read(ctx, n_of(ctx, 48, 600))
     run_family(ctx, "match", n_of(ctx, 40, 400), perfile=20, seed_off=6)          # results of DocsMatchingTerms are the caller's to edit
     run_family(ctx, "block_drop", n_of(ctx, 16, 112), perfile=4, seed_off=1)      # a destination that reads the inputs while the merge copies their stored blocks
+    run_family(ctx, "conc_big", n_of(ctx, 3, 24), perfile=1)                        # several goroutines decompress (and compress) large chunks at once
     require_cov(ctx, "tag:nested", "tag:twoblocks")
     run_family(ctx, "conc_sched", n_of(ctx, 60, 1500), perfile=n_of(ctx, 10, 30))
     run_family(ctx, "conc_free", n_of(ctx, 40, 800), perfile=n_of(ctx, 8, 20))
@@ -494,6 +501,7 @@ def plan_C10(ctx):
     run_family(ctx, "xver", n_of(ctx, 80, 1500), perfile=n_of(ctx, 8, 20))
     run_family(ctx, "xver_big", n_of(ctx, 14, 140), perfile=1)
     run_family(ctx, "roundtrip_big", n_of(ctx, 22, 110), perfile=2, seed_off=6)
+    run_family(ctx, "card_boundary", n_of(ctx, 6, 24), perfile=1, seed_off=5)      # deleted 1-hit inputs next to a cardinality on a chunk-size step
     canary(ctx)
 
 
@@ -546,6 +554,7 @@ def plan_C14(ctx):
     run_family(ctx, "proc_history", n_of(ctx, 6, 60), perfile=3)                   # the same batch in fresh processes with different first builds
     run_family(ctx, "conc_build", n_of(ctx, 40, 600), perfile=n_of(ctx, 10, 20))
     run_family(ctx, "conc_write", n_of(ctx, 8, 160), perfile=4, seed_off=3)
+    run_family(ctx, "conc_big", n_of(ctx, 3, 24), perfile=1, seed_off=1)           # concurrent builds whose chunks exceed a megabyte
     race_pass(ctx, "conc_build", n_of(ctx, 16, 200), "C14")
     require_cov(ctx, "pooled_builds")
 
@@ -553,6 +562,7 @@ def plan_C14(ctx):
 def plan_C15(ctx):
     e1_gen_api(ctx)
     e2_gen_api(ctx, n_of(ctx, 60, 1200))
+    run_family(ctx, "fault_transient", n_of(ctx, 48, 480), perfile=6, seed_off=3)  # a failed lazy load must not be remembered: later reads see the segment it was
     require_cov(ctx, "tag:api_merge_with_bitmap", "tag:api_prealloc", "tag:api_stats_add")
     run_family(ctx, "immut", n_of(ctx, 80, 1500), perfile=n_of(ctx, 8, 20))
     run_family(ctx, "immut", n_of(ctx, 40, 600), perfile=10, seed_off=5, env_extra={"VERIF_INLINE": "1"})   # one goroutine: the scratch objects a merge hands back are the ones the next reads get
@@ -588,6 +598,7 @@ def plan_C17(ctx):
     run_family(ctx, "merge_chain", n_of(ctx, 20, 300), perfile=10, seed_off=5)
     run_family(ctx, "block_drop", n_of(ctx, 16, 112), perfile=4)                 # deletions on the first/last slot of a stored block, all at once vs stepwise
     run_family(ctx, "dv_walk", n_of(ctx, 8, 100), perfile=2, seed_off=6)           # doc-value chunk gaps in an input that is not the first
+    run_family(ctx, "big_dv", n_of(ctx, 2, 8), perfile=1, seed_off=1)              # a merged doc-value chunk of many megabytes
     canary(ctx)
 
 
